@@ -15,7 +15,7 @@ from mzverif.core import Sub, call, require, scribble
 
 ID = "C10"
 LEVEL = "exploration"
-TECHNIQUE = "exhaustive over graphs <= 3x3 x kinds x endpoint pairs x every shortest path x option sequences + every valid (also non-shortest) solution on shapes <= 2x3 + Hypothesis up to 12x12 + grids of 33..127 cells per side with int8 coordinates; oracle = independent renderer (pixel-for-pixel and character-for-character) and round trip through from_pixels/from_ascii"
+TECHNIQUE = "exhaustive over graphs <= 3x3 x kinds x endpoint pairs x every shortest path x option sequences + every valid (also non-shortest) solution on shapes <= 2x3 + Hypothesis up to 12x12 + grids of 33..127 cells per side with int8 coordinates; oracle = independent renderer (pixel-for-pixel and character-for-character) and round trip through from_pixels/from_ascii; the same check on several cases at once, one thread each (interleavings sampled)"
 RULE = (
     "case = (connection bits, kind, solution/endpoints, sequence of (show_endpoints, show_solution) combinations rendered on the same object). quick: all graphs on shapes with <= 7 lattice "
     "edges completely, every 3x3 graph with 6 seeded endpoint pairs; thorough: everything <= 3x3. random: graphs up to 12x12 (20x20 "
@@ -221,6 +221,7 @@ def subs(tier: str):
     return [
         Sub("exhaustive<=3x3", check, "exhaustive", cases=_exhaustive(q), exhaustive_flag=not q),
         Sub("random", check, "hypothesis", strategy=lambda: _random(12 if q else 20), examples=80 if q else 1200),
+        Sub("concurrent-threads", core.threaded(check), "hypothesis", strategy=core.threaded_strategy(lambda: _random(8 if q else 12)), examples=6 if q else 120, ambient=False),
         Sub("any-valid-solution-exhaustive<=2x3", check, "exhaustive", cases=_exhaustive_walks, exhaustive_flag=True),
         Sub("large-grids-int8", check, "hypothesis", strategy=lambda: _big(False), examples=3 if q else 40),
         Sub("same-flags-other-shape", check_twins, "hypothesis", strategy=_twins, examples=15 if q else 300),
